@@ -39,6 +39,30 @@ def gen_replies(rng, doc):
     return acts
 
 
+def gen_inside_ins_commented(rng, doc, texts):
+    """a commented edit that quotes context around another reviewer's pending insertion and only adds a word strictly
+    inside that insertion (after trimming: a pure insertion inside the insertion); -> list with 0 or 1 edit"""
+    pvs = [editgen.ParaView(si, pi, p) for pi, (si, p) in enumerate(sem.all_paragraphs(doc))]
+    rng.shuffle(pvs)
+    word = editgen.WordSource(rng)
+    for pv in pvs[:8]:
+        t = editgen.pick_cross_ins_any(rng, pv, texts)
+        if not t or t["shape"] != "over":
+            continue
+        seg = pv.acc[t["a"]:t["b"]]
+        inside = [k for k, c in enumerate(seg) if c["state"] == "ins"]
+        if len(inside) < 3:
+            continue
+        k0, k1 = inside[0], inside[-1]
+        spaces = [k for k in range(k0 + 1, k1) if seg[k]["c"] == " " and seg[k - 1]["c"] != " "]
+        if not spaces:
+            continue
+        pos = rng.choice(spaces)
+        new = t["target"][:pos] + " " + word() + t["target"][pos:]
+        return [{**t, "kind": "inside_ins", "new": new, "comment": "inside note " + word(), "locatable": True}]
+    return []
+
+
 def work(case):
     if "doc" not in case:
         doc, feats, rng = gen.gen_document(case["seed"], case["index"], PROFILES[case["profile"]])
@@ -62,6 +86,8 @@ def work(case):
             edits += more
         else:
             edits = editgen.gen_batch(rng, case["doc"], texts, rng.randint(1, 3), KINDS, comment_p=0.75)
+        if rng.random() < 0.35:
+            edits += [e for e in gen_inside_ins_commented(rng, case["doc"], texts) if not any(e["pi"] == x["pi"] for x in edits)]
         for e in edits:
             e["locatable"] = True
     r = engine_run.run_edits(data, edits)
